@@ -38,10 +38,12 @@ def parse_answers(text):
         except ValueError:
             continue
         rest = line[sp + 1:]
-        d = res.setdefault(pidx, {"STEP": [], "STEPC": [], "IMG": {}, "GUARD": False, "V": [], "VC": []})
+        d = res.setdefault(pidx, {"STEP": [], "STEPC": [], "STEPF": [], "IMG": {}, "GUARD": False, "V": [], "VC": [], "VF": []})
         k, _, v = rest.partition(" ")
-        if k in ("STEP", "STEPC"):
+        if k in ("STEP", "STEPC", "STEPF"):
             d[k].append(v)
+        elif k == "STEPFV":
+            d["VF"].append(v)
         elif k == "STEPV":
             d["V"].append(v)
         elif k == "STEPCV":
@@ -60,6 +62,8 @@ def parse_answers(text):
             d["IMG"][(int(k[3:]), who)] = img
         elif k.startswith("GUARD"):
             d["GUARD"] = True
+        elif k == "REFTRACE":
+            d["REFTRACE"] = v
         elif k == "CORRUPT":
             d.setdefault("CORRUPT", []).append(v)
     return res
@@ -95,8 +99,36 @@ def locate_crash(exe, chunk, args=()):
 
 
 # ------------------------------------------------------------------------------------------------ the independent judgement (impl vs impl)
+def judge_func(meta, ans, cat):
+    """function programs: Compiler (add_func/ret/end_func, physical registers only) vs Assembler + emit_prolog/emit_epilog of the
+    Compiler's own frames"""
+    out = []
+    if ans is None or "EC" not in ans or "EA" not in ans or len(ans["IMG"]) != 4:
+        return [("C08/no-answer", "harness gave no complete answer for function program %d" % meta["pidx"])]
+    ea, (ec, fc) = ans["EA"], ans["EC"]
+    lines = meta["lines"]
+    deferred = False
+    for i, (a, c) in enumerate(zip(ea, ec)):
+        if c != 0 and c != a:
+            out.append(("C08/func/error-code-differs/%s" % lines[i].split()[0], "call %d `%s`: Compiler returned %d, Assembler %d" % (i, lines[i], c, a)))
+        if a != 0 and c == 0:
+            deferred = True
+    if not deferred and fc != 0:
+        out.append(("C08/func/finalize-error", "Compiler::finalize() returned %d although the Assembler accepted every call" % fc))
+    if not any(ea) and not any(ec) and fc == 0:
+        for w in (0, 1):
+            c, r1 = ans["IMG"][(w, "C")], ans["IMG"][(w, "R1")]
+            if " rl=0 " not in c and " rl=0 " not in r1:
+                c, r1 = strip_bytes(c), strip_bytes(r1)
+            if c != r1:
+                out.append(("C08/func/image-differs-from-direct-assembling", "Compiler image of a function program differs from Assembler + emit_prolog/emit_epilog (base #%d):\n C : %s\n R1: %s" % (w, c[:400], r1[:400])))
+    return out
+
+
 def judge_program(meta, ans, cat):
     """Returns list of (key, what). Independent of the Coq model."""
+    if meta["kind"] == "func":
+        return judge_func(meta, ans, cat)
     out = []
     E = cat.err
     kind = meta["kind"]
@@ -106,7 +138,7 @@ def judge_program(meta, ans, cat):
     if ans["GUARD"]:
         return [("C08/generator-guard", "const-pool layout assumed by the generator differs from ConstPool::fill (program %d)" % meta["pidx"])]
     ea, (eb, fb), (ec, fc), e2 = ans["EA"], ans["EB"], ans["EC"], ans["E2"]
-    shape = "double-bind" if meta["double_bind"] else kind
+    shape = kind
     if ans.get("CORRUPT"):
         out.append(("C08/%s/node-list-corrupt" % shape, "the node list became cyclic / half-linked after command %s" % ans["CORRUPT"][0]))
     # 1. Compiler == Builder (same node machinery, physical registers only)
@@ -121,10 +153,7 @@ def judge_program(meta, ans, cat):
         for i, (a, b) in enumerate(zip(ea, eb)):
             c = lines[i].split()[0]
             if b != 0 and b != a:
-                if c in ("EL", "ED") and b == E["InvalidArgument"] and a == E["InvalidOperandSize"]:
-                    out.append(("C08/embed-label-bad-size-error-code", "%s: Builder returns kInvalidArgument, Assembler kInvalidOperandSize" % lines[i]))
-                else:
-                    out.append(("C08/%s/error-code-differs/%s" % (shape, c), "call %d `%s`: Builder returned %d at record time, Assembler %d" % (i, lines[i], b, a)))
+                out.append(("C08/%s/error-code-differs/%s" % (shape, c), "call %d `%s`: Builder returned %d at record time, Assembler %d" % (i, lines[i], b, a)))
             if a != 0 and b == 0:
                 deferred.append(i)
     else:
@@ -135,9 +164,16 @@ def judge_program(meta, ans, cat):
     # 3. finalize error = first error of the direct sequence (R2 = Assembler fed the list-oracle order, stopping at the first error)
     if fb != e2:
         out.append(("C08/%s/finalize-error" % shape, "finalize() returned %d, the direct sequence fails first with %d" % (fb, e2)))
-    if kind != "edit" and not meta["double_bind"]:
+    if kind != "edit":
         if (not deferred) != (e2 == 0) and not out:
             out.append(("C08/%s/deferred-error-set" % shape, "Assembler errors in call order %s but the grouped direct sequence fails with %d" % ([ea[i] for i in deferred], e2)))
+    if meta.get("validate") and kind != "edit":
+        holes = [i for i in deferred if operand_after_hole(lines[i])]
+        if holes and out:
+            # recorded defect: under strict validation the Builder validates op_count_from_emit_args() operands, the Assembler all six slots
+            return [("C08/strict-validation-operand-after-hole",
+                     "call %d `%s`: refused by the Assembler under kValidateAssembler (%d), accepted by the Builder under kValidateIntermediate, "
+                     "which records it without the operand(s) after the empty slot" % (holes[0], lines[holes[0]], ea[holes[0]]))]
     # 4. images
     for w in (0, 1):
         b, r2, r1 = ans["IMG"][(w, "B")], ans["IMG"][(w, "R2")], ans["IMG"][(w, "R1")]
@@ -149,10 +185,17 @@ def judge_program(meta, ans, cat):
             b, r1 = strip_bytes(b), strip_bytes(r1)
         if kind != "edit" and not any(ea) and not any(eb) and fb == 0 and b != r1:
             out.append(("C08/%s/image-differs-from-direct-assembling" % shape, "Builder image differs from the Assembler fed the calls in call order (base #%d):\n B : %s\n R1: %s" % (w, b[:400], r1[:400])))
-    if meta["double_bind"]:
-        # known shape: every disagreement of such a program is attributed to the double bind
-        out = [("C08/double-bind-through-builder", "a label bound twice through a Builder: " + o[1]) for o in out[:1]]
     return out
+
+
+def operand_after_hole(line):
+    """an `I` command whose operand list has an empty slot followed by a non-empty one"""
+    t = line.split()
+    if t[0] != "I":
+        return False
+    n = int(t[2])
+    sigs = [int(t[3 + 4 * i]) for i in range(n)]
+    return any(sigs[i] == 0 and any(x != 0 for x in sigs[i + 1:]) for i in range(n))
 
 
 def strip_bytes(img):
@@ -161,9 +204,64 @@ def strip_bytes(img):
     return re.sub(r"(\[\d+ off=\d+ vs=\d+ )[0-9a-f=]+\]", lambda m: m.group(1) + "*]", img)
 
 
-def shrink(ck, impl, cat, meta, text, key):
-    """delete builder commands (and the matching reference lines are recomputed impossible here) -> we only shrink trailing commands: cheap and safe"""
-    return text
+def shrink(impl, cat, meta, key, allow_xsec, budget=400):
+    """Delta-debugging over the builder command lines: delete chunks while the SAME violation key is still reported for the smaller
+    program (its reference sequence is recomputed by the list oracle, so every candidate is a well-formed question).  Returns
+    (program text, number of commands) of the smallest failing program found."""
+    lines = list(meta["lines"])
+    runs = [0]
+
+    def fails(ls):
+        if runs[0] >= budget:
+            return False
+        if meta["kind"] == "func":
+            depth = 0
+            for l in ls:
+                k = l.split()[0]
+                if k == "FN":
+                    depth += 1
+                elif k == "FE":
+                    depth -= 1
+                if depth not in (0, 1) or (k == "FR" and depth != 1):
+                    return False
+            if depth != 0 or any(l == "FR" and ls[i + 1] != "FE" for i, l in enumerate(ls[:-1])):
+                return False
+        ref, ok = c08_gen.reference_of(ls, cat) if meta["kind"] != "func" else ([], True)
+        if not ok:
+            return False
+        direct = [l for l in ls if l.split()[0] not in EDIT_CMDS]
+        if not allow_xsec and (c08_gen.shape_714(ref, c08_gen.inst_label_refs) or (meta["kind"] != "edit" and c08_gen.shape_714(direct, c08_gen.inst_label_refs))):
+            return False
+        text = c08_gen.program_text(meta["pidx"], meta["arch"], meta["base"][0], meta["base"][1], meta["flags"], ls, ref)
+        runs[0] += 1
+        rc, out, err = vlib.sh([impl, "run"], inp=text, timeout=20)
+        if rc != 0:
+            return key == "C08/harness-crash"
+        m2 = dict(meta, lines=ls, ref=ref)
+        return any(k == key for k, _w in judge_program(m2, parse_answers(out).get(meta["pidx"]), cat))
+
+    if not fails(lines):
+        return None, len(lines)
+    n = 2
+    while len(lines) >= 2:
+        chunk = max(1, len(lines) // n)
+        reduced = False
+        i = 0
+        while i < len(lines):
+            cand = lines[:i] + lines[i + chunk:]
+            if cand and fails(cand):
+                lines = cand
+                reduced = True
+            else:
+                i += chunk
+        if not reduced:
+            if chunk == 1:
+                break
+            n = min(len(lines), n * 2)
+        if runs[0] >= budget:
+            break
+    ref, _ok = c08_gen.reference_of(lines, cat) if meta["kind"] != "func" else ([], True)
+    return c08_gen.program_text(meta["pidx"], meta["arch"], meta["base"][0], meta["base"][1], meta["flags"], lines, ref), len(lines)
 
 
 # ------------------------------------------------------------------------------------------------ main
@@ -200,7 +298,7 @@ def gen_all(ck, cat, rng, allow_xsec=False):
     quick = ck.tier == "quick"
     n = int(os.environ.get("C08_N", 2400 if quick else 150000))
     progs = []
-    kinds = ["pure"] * 4 + ["edit"] * 4 + ["malformed"] * 2
+    kinds = ["pure"] * 4 + ["edit"] * 4 + ["malformed"] * 2 + ["func"]
     corpus = os.path.join(vlib.VERIF, "corpus", "C08.txt")
     for i in range(n):
         arch = [1, 0, 2][i % 3]
@@ -251,7 +349,23 @@ def run(ck):
     ans = parse_answers(out)
     mans = {}
     if model and not crashed:
-        mout = run_sharded(model, texts)
+        # strict-validation programs: the validator is opaque to the model, its verdict (the Builder's answer to each `I`) is an input:
+        # a refused `I` becomes `IR <error>` in the model's copy of the program
+        mtexts = []
+        n_validated = 0
+        for text, meta in progs:
+            a = ans.get(meta["pidx"])
+            if meta.get("validate") and a and "EB" in a:
+                n_validated += 1
+                eb = a["EB"][0]
+                head, body = text.split("\n", 1)
+                blines = body.split("\n")
+                for i, l in enumerate(meta["lines"]):
+                    if l.startswith("I ") and i < len(eb) and eb[i] != 0 and blines[i] == l:
+                        blines[i] = "IR %d" % eb[i]
+                text = head + "\n" + "\n".join(blines)
+            mtexts.append(text)
+        mout = run_sharded(model, mtexts)
         if isinstance(mout, tuple):
             ck.violation("C08/model-driver-crash", "the extracted model driver died: %s" % (mout[2],), {"detail": str(mout[2])}, no_input=True)
         else:
@@ -265,6 +379,8 @@ def run(ck):
     disagreements = 0
     steps_compared = 0
     oracle_only = 0
+    ref_checked = 0
+    n_shrunk = 0
     samples = []
     for text, meta in progs:
         if crashed:
@@ -280,30 +396,30 @@ def run(ck):
         if a and a.get("DUMP") and len(meta["lines"]) > 4:
             distinct.add(a["DUMP"])
         for key, what in js:
-            ck.violation(key, "program %d (%s, arch %d): %s" % (meta["pidx"], meta["kind"], meta["arch"], what), {"program": text, "kind": meta["kind"], "arch": meta["arch"]})
+            rp = {"program": text, "kind": meta["kind"], "arch": meta["arch"]}
+            if ck.match_finding(key) is None and not any(v["key"] == key for v in ck.violations) and n_shrunk < 6:
+                n_shrunk += 1
+                small, ncmd = shrink(impl, cat, meta, key, allow_xsec)
+                if small is not None:
+                    rp = {"program": small, "original_program": text, "kind": meta["kind"], "arch": meta["arch"], "commands_after_shrinking": ncmd, "commands_before": len(meta["lines"])}
+                    what += "  [shrunk from %d to %d commands: %s]" % (len(meta["lines"]), ncmd, " ; ".join(small.split("\n")[1:1 + min(ncmd, 12)]))
+            ck.violation(key, "program %d (%s, arch %d): %s" % (meta["pidx"], meta["kind"], meta["arch"], what), rp)
         # node-list differential with the proven model
-        if model and mans and any(l.startswith("CPN") for l in meta["lines"]):
-            oracle_only += 1        # ConstPoolNode is not in the model: such programs are judged by the oracle only (counted, never silently passed)
-        elif model and mans:
+        if model and mans:
             m = mans.get(meta["pidx"])
             if m is None or a is None:
                 ck.violation("C08/model-no-answer", "model gave no answer for program %d" % meta["pidx"], {"program": text, "broken": "correspondence stream"}, no_input=True)
                 continue
-            for tag in ("STEP", "STEPC"):
+            # the reference sequence the oracle feeds to the Assembler (python list) must be, call for call, what the proven model
+            # serializes (compared inside the model driver through the model's own [trace])
+            rt = m.get("REFTRACE")
+            if rt is not None:
+                ref_checked += 1
+                if not rt.startswith("ok"):
+                    ck.violation("C08/oracle-vs-model/reference", "program %d: the list oracle's reference sequence and the model's serialization differ (%s)" % (meta["pidx"], rt),
+                                 {"program": text, "broken": "python ListOracle vs BuilderModel.replay", "detail": rt}, no_input=True)
+            for tag in (("STEPF",) if meta["kind"] == "func" else ("STEP", "STEPC")):
                 ms, is_ = m["STEP"], list(a[tag])
-                # the model mirrors the pinned error code of embed_label/_delta for a bad size (kInvalidArgument, known finding); a tree with
-                # fixes/C08-embed-label-error-code.patch answers kInvalidOperandSize: same state, accepted
-                for i, l in enumerate(is_):
-                    if i < len(meta["lines"]) and meta["lines"][i].split()[0] in ("EL", "ED"):
-                        t = l.split()
-                        if len(t) == 3 and t[1] == str(cat.err["InvalidOperandSize"]):
-                            is_[i] = "%s %d %s" % (t[0], cat.err["InvalidArgument"], t[2])
-                # the model refuses a bind of an already active label (proposed fix); the pinned code links the node again (known finding):
-                # from that command on the lists are not comparable
-                if meta["double_bind"] and meta.get("double_bind_at") is not None:
-                    at = meta["double_bind_at"]
-                    if at < len(ms) and (at >= len(is_) or is_[at] != ms[at]):
-                        ms, is_ = ms[:at], is_[:at]
                 # model prints "UNDEF" from the first command whose effect the model does not define (double bind of an active label node)
                 upto = len(ms)
                 for i, l in enumerate(ms):
@@ -318,13 +434,13 @@ def run(ck):
                     first = next((i for i in range(min(upto, len(is_))) if ms[i] != is_[i]), min(upto, len(is_)))
                     rc1, vo, _ = vlib.sh([impl, "run", "-v"], inp=text, timeout=120)
                     rc2, vm, _ = vlib.sh([model, "-v"], inp=text, timeout=120)
-                    va = parse_answers(vo).get(meta["pidx"], {}).get("V" if tag == "STEP" else "VC", [])
+                    va = parse_answers(vo).get(meta["pidx"], {}).get({"STEP": "V", "STEPC": "VC", "STEPF": "VF"}[tag], [])
                     vmm = parse_answers(vm).get(meta["pidx"], {}).get("V", [])
                     di = va[first] if first < len(va) else "?"
                     dm = vmm[first] if first < len(vmm) else "?"
                     cmd = meta["lines"][first] if first < len(meta["lines"]) else "?"
                     if not [k for k, _w in js if ck.match_finding(k) is None]:     # the oracle already exhibits a failing input otherwise
-                        ck.violation("C08/correspondence/%s/%s" % ("builder" if tag == "STEP" else "compiler", cmd.split()[0]),
+                        ck.violation("C08/correspondence/%s/%s" % ("builder" if tag == "STEP" else "compiler", cmd.split()[0] if cmd.split() else "?"),
                                      "program %d: node list of the %s and of the proven model differ after command %d `%s`\n impl : %s\n model: %s\n(the implementation-vs-implementation "
                                      "oracle found no wrong image for this program)" % (meta["pidx"], "Builder" if tag == "STEP" else "Compiler", first, cmd, di[:700], dm[:700]),
                                      {"program": text, "step": first, "impl": di, "model": dm, "broken": "node-list correspondence of BuilderModel.v with /repo"}, no_input=True)
@@ -335,8 +451,9 @@ def run(ck):
     if model:
         rc, mt, err = vlib.sh([model, "-consts"], timeout=60)
         want = []
-        for k in ("InvalidArgument", "InvalidLabel", "InvalidSection", "LabelAlreadyBound"):
+        for k in ("InvalidArgument", "InvalidLabel", "InvalidSection", "LabelAlreadyBound", "InvalidOperandSize"):
             want.append("ERR %s %d" % (k, cat.err[k]))
+        want.append("ERR InvalidState %d" % cat.err["InvalidState"])
         want.append("OPT Reserved %d" % cat.opt["Reserved"])
         want.append("ALIGN data %d" % cat.align["data"])
         want.append("MAXOPS %d %d %d" % cat.maxops)
@@ -356,7 +473,7 @@ def run(ck):
                  "section switches; 40% with node-list edits, 20% malformed) generated from VERIF_SEED for x86-64/x86-32/AArch64; a program is non-trivial when it "
                  "has more than 4 commands; distinct = distinct final node-list dumps",
          "samples": samples, "programs_by_kind": kinds, "input_distribution": stats, "programs_without_any_error": n_err_free, "cross_section_label_references_generated": allow_xsec,
-         "node_list_steps_compared_with_model": steps_compared, "unsupported": {"programs_with_ConstPoolNode_judged_by_oracle_only": oracle_only}, "model_vs_impl_disagreements": disagreements,
+         "node_list_steps_compared_with_model": steps_compared, "reference_sequences_equal_to_model_serialization": ref_checked, "programs_under_strict_validation": len([1 for _t, m in progs if m.get("validate")]), "unsupported": {"programs_judged_by_oracle_only": oracle_only}, "model_vs_impl_disagreements": disagreements,
          "traces_validated_against_impl": n_judged if model else 0},
         assumptions=["theorems are about the Gallina model BuilderModel.v; the model is tied to builder.cpp by the per-command node-list differential of this check",
                      "the instruction encoder is opaque to the model (C01/C02 speak about it); equality of images is established per run by the implementation-vs-implementation oracle",
